@@ -9,6 +9,7 @@ from vp.engine import SubCheck
 
 PROPERTY = "C01"
 RULE = (
+    "(extended 2) the other routes to the two forms are covered too: no_mask constructors (native input, slim input + shape_native) followed by apply_mask, Grid2D.from_yx_1d/from_yx_2d, VectorYX2D.from_mask/no_mask/apply_mask and components, native_skip_mask at the unmasked positions, and the public utilities convert_array_2d_to_slim/native, convert_grid_2d_to_slim/native, index_2d_for_index_slim_from / index_slim_for_index_2d_from (and their round trip over every pixel) and the complex slim/native pair; index lists of masks derived from a mask whose lists were read (invert, copy + in-place edit). "
     "(extended) every constructed object is also put through additive arithmetic (x+c, c-x) and the native / slim / round-trip forms of the derived object are checked: masked positions of the native form stay zero. "
     "enum2d: every boolean mask with >=1 unmasked pixel on every shape with H*W<=12 (quick) / <=16 "
     "(thorough) with values 1..H*W, checked for Array2D/Grid2D/VectorYX2D in both storage modes and "
@@ -20,6 +21,7 @@ RULE = (
 )
 TECHNIQUE = "exhaustive enumeration of all small masks plus Hypothesis-generated masks/values against a numpy boolean-indexing reference model and round trips"
 ASSUMPTIONS = [
+    "util.grid_2d.convert_grid_2d_to_native returns a native (3D) input unchanged (dimension pass-through, no callers inside the library); for that input form only the unmasked positions are compared",
     "numpy boolean indexing / argwhere in C order is the reference for 'row-major order'",
     "numba is absent, so the @jit kernels run as plain Python (same source, no compilation step)",
 ]
@@ -99,6 +101,8 @@ def _check_2d(mask_l, vals_flat, ctx, kinds=("array", "grid", "vector"), grid_va
                 ctx.equal(np.asarray(yv.slim), want_gslim + 1.5, "vector2d/derived/slim", tag + " (add).slim")
                 ctx.equal(np.asarray(yv.native), np.where(m[:, :, None], 0.0, g + 1.5), "vector2d/derived/native", tag + " (add).native")
 
+    _check_routes_and_utils(aa, m, mask, vals, ctx)
+
     # index lists published by the mask
     di = mask.derive_indexes
     nfs = np.asarray(di.native_for_slim)
@@ -113,6 +117,111 @@ def _check_2d(mask_l, vals_flat, ctx, kinds=("array", "grid", "vector"), grid_va
     if nfs.shape == (n, 2):
         ctx.equal(nfs[:, 0] * w + nfs[:, 1], us.ravel().astype(int), "indexes/consistent",
                   "native_for_slim flattened vs unmasked_slim")
+    # masks derived from a mask whose index lists were already read (invert, copy + in-place edit) publish the lists
+    # of their OWN contents
+    derived = []
+    if m.any() and un.any():
+        derived.append(("invert", mask.invert()))
+    cp = mask.copy()
+    yy, xx = np.argwhere(un)[-1]
+    if n >= 2:
+        cp[int(yy), int(xx)] = True
+        derived.append(("copy-edit", cp))
+    for dname, dm in derived:
+        dmask = np.array(dm).astype(bool)
+        ddi = dm.derive_indexes
+        ctx.equal(np.asarray(ddi.native_for_slim), np.argwhere(~dmask), "indexes/derived-mask/native_for_slim", "%s of a mask whose lists were read" % dname)
+        ctx.equal(np.asarray(ddi.unmasked_slim), np.flatnonzero(~dmask), "indexes/derived-mask/unmasked_slim", dname)
+        ctx.equal(np.asarray(ddi.masked_slim), np.flatnonzero(dmask), "indexes/derived-mask/masked_slim", dname)
+    ctx.equal(np.asarray(mask.derive_indexes.unmasked_slim), np.flatnonzero(un), "indexes/derived-mask/parent-changed", "parent lists after deriving masks")
+
+
+def _check_routes_and_utils(aa, m, mask, vals, ctx):
+    """The other ways to the same two forms: the no-mask constructors followed by apply_mask, the (y,x) component
+    constructors, native_skip_mask, and the public conversion / index utilities of util.array_2d and util.grid_2d
+    (none of which the constructors above pass through)."""
+    h, w = m.shape
+    un = ~m
+    n = int(un.sum())
+    want_slim = vals[un]
+    want_native = np.where(m, 0.0, vals)
+    g = np.stack([vals, -2.0 * vals - 0.5], axis=-1)
+    want_gslim = g[un]
+    want_gnative = np.where(m[:, :, None], 0.0, g)
+
+    # no_mask (native 2D input and slim input + shape_native) then apply_mask
+    for form in ("native", "slim+shape"):
+        if form == "native":
+            full = aa.Array2D.no_mask(values=vals.copy(), pixel_scales=1.0)
+        else:
+            full = aa.Array2D.no_mask(values=vals.ravel().copy(), shape_native=(h, w), pixel_scales=1.0)
+        ctx.equal(np.asarray(full.native), vals, "array2d/no_mask/native", form)
+        ctx.equal(np.asarray(full.slim), vals.ravel(), "array2d/no_mask/slim", form)
+        am = full.apply_mask(mask=mask)
+        ctx.equal(np.asarray(am.slim), want_slim, "array2d/apply_mask/slim", form)
+        ctx.equal(np.asarray(am.native), want_native, "array2d/apply_mask/native", form)
+        ctx.equal(np.asarray(full.native), vals, "array2d/apply_mask/source-changed", form)
+    for store_native in (False, True):
+        a = aa.Array2D(values=vals.copy(), mask=mask, store_native=store_native)
+        nsm = np.asarray(a.native_skip_mask)
+        ctx.check(nsm.shape == (h, w), "array2d/native_skip_mask/shape", "shape %r" % (nsm.shape,))
+        if nsm.shape == (h, w):
+            ctx.equal(nsm[un], want_slim, "array2d/native_skip_mask/unmasked-values", "store_native=%s" % store_native)
+
+    gfull = aa.Grid2D.no_mask(values=g.copy(), pixel_scales=1.0)
+    ctx.equal(np.asarray(gfull.native), g, "grid2d/no_mask/native", "native in")
+    ctx.equal(np.asarray(gfull.slim), g.reshape(-1, 2), "grid2d/no_mask/slim", "native in")
+    gfull2 = aa.Grid2D.no_mask(values=g.reshape(-1, 2).copy(), shape_native=(h, w), pixel_scales=1.0)
+    ctx.equal(np.asarray(gfull2.native), g, "grid2d/no_mask/native", "slim+shape in")
+    gyx2 = aa.Grid2D.from_yx_2d(y=g[:, :, 0].copy(), x=g[:, :, 1].copy(), pixel_scales=1.0)
+    ctx.equal(np.asarray(gyx2.native), g, "grid2d/from_yx_2d/native", "")
+    ctx.equal(np.asarray(gyx2.slim), g.reshape(-1, 2), "grid2d/from_yx_2d/slim", "")
+    gyx1 = aa.Grid2D.from_yx_1d(y=g[:, :, 0].ravel().copy(), x=g[:, :, 1].ravel().copy(), shape_native=(h, w), pixel_scales=1.0)
+    ctx.equal(np.asarray(gyx1.native), g, "grid2d/from_yx_1d/native", "")
+    ctx.equal(np.asarray(gyx1.slim), g.reshape(-1, 2), "grid2d/from_yx_1d/slim", "")
+
+    vfull = aa.VectorYX2D.no_mask(values=g.copy(), pixel_scales=1.0)
+    ctx.equal(np.asarray(vfull.native), g, "vector2d/no_mask/native", "native in")
+    ctx.equal(np.asarray(vfull.slim), g.reshape(-1, 2), "vector2d/no_mask/slim", "native in")
+    vm = vfull.apply_mask(mask=mask)
+    ctx.equal(np.asarray(vm.slim), want_gslim, "vector2d/apply_mask/slim", "")
+    ctx.equal(np.asarray(vm.native), want_gnative, "vector2d/apply_mask/native", "")
+    vfm = aa.VectorYX2D.from_mask(values=g.copy(), mask=mask)
+    ctx.equal(np.asarray(vfm.slim), want_gslim, "vector2d/from_mask/slim", "native in")
+    ctx.equal(np.asarray(vfm.native), want_gnative, "vector2d/from_mask/native", "native in")
+    ctx.equal(np.asarray(vfm.y.slim), want_gslim[:, 0], "vector2d/components", "y")
+    ctx.equal(np.asarray(vfm.x.native), want_gnative[:, :, 1], "vector2d/components", "x native")
+
+    # public utilities
+    ua, ug = aa.util.array_2d, aa.util.grid_2d
+    ctx.equal(np.asarray(ua.convert_array_2d_to_slim(array_2d=vals.copy(), mask_2d=mask)), want_slim, "util/convert_array_2d_to_slim", "native in")
+    ctx.equal(np.asarray(ua.convert_array_2d_to_slim(array_2d=want_slim.copy(), mask_2d=mask)), want_slim, "util/convert_array_2d_to_slim", "slim in")
+    ctx.equal(np.asarray(ua.convert_array_2d_to_native(array_2d=vals.copy(), mask_2d=mask)), want_native, "util/convert_array_2d_to_native", "native in")
+    ctx.equal(np.asarray(ua.convert_array_2d_to_native(array_2d=want_slim.copy(), mask_2d=mask)), want_native, "util/convert_array_2d_to_native", "slim in")
+    ctx.equal(np.asarray(ug.convert_grid_2d_to_slim(grid_2d=g.copy(), mask_2d=mask)), want_gslim, "util/convert_grid_2d_to_slim", "native in")
+    ctx.equal(np.asarray(ug.convert_grid_2d_to_slim(grid_2d=want_gslim.copy(), mask_2d=mask)), want_gslim, "util/convert_grid_2d_to_slim", "slim in")
+    # a native (3D) input is documented and implemented as a pure dimension pass-through (no re-masking), so only
+    # the unmasked positions are compared for it
+    gpass = np.asarray(ug.convert_grid_2d_to_native(grid_2d=g.copy(), mask_2d=mask))
+    ctx.check(gpass.shape == (h, w, 2), "util/convert_grid_2d_to_native", "native in: shape %r" % (gpass.shape,))
+    if gpass.shape == (h, w, 2):
+        ctx.equal(gpass[un], want_gslim, "util/convert_grid_2d_to_native", "native in, unmasked positions")
+    ctx.equal(np.asarray(ug.convert_grid_2d_to_native(grid_2d=want_gslim.copy(), mask_2d=mask)), want_gnative, "util/convert_grid_2d_to_native", "slim in")
+    flat = np.flatnonzero(un)
+    yx = np.argwhere(un)
+    ctx.equal(np.asarray(ua.index_2d_for_index_slim_from(indexes_slim=flat, shape_native=(h, w))), yx.astype(float),
+              "util/index_2d_for_index_slim_from", "flat indexes of the unmasked pixels")
+    ctx.equal(np.asarray(ua.index_slim_for_index_2d_from(indexes_2d=yx, shape_native=(h, w))), flat.astype(float),
+              "util/index_slim_for_index_2d_from", "(y,x) indexes of the unmasked pixels")
+    allflat = np.arange(h * w)
+    back = ua.index_slim_for_index_2d_from(indexes_2d=np.asarray(ua.index_2d_for_index_slim_from(indexes_slim=allflat, shape_native=(h, w))).astype(int), shape_native=(h, w))
+    ctx.equal(np.asarray(back), allflat.astype(float), "util/index-roundtrip", "flat -> (y,x) -> flat over every pixel")
+    cvals = vals + 1j * (0.5 - 3.0 * vals)
+    cs = np.asarray(ua.array_2d_slim_complex_from(array_2d_native=cvals.copy(), mask=m.copy()))
+    ctx.equal(cs, cvals[un], "util/array_2d_slim_complex_from", "complex native -> slim")
+    cn = np.asarray(ua.array_2d_native_complex_via_indexes_from(array_2d_slim=cvals[un].copy(), shape_native=(h, w),
+                                                                 native_index_for_slim_index_2d=yx))
+    ctx.equal(cn, np.where(m, 0.0 + 0.0j, cvals), "util/array_2d_native_complex_via_indexes_from", "complex slim -> native")
 
 
 def body_enum2d(case, ctx):
